@@ -74,11 +74,11 @@ func VerifHarness_C01_Reads() { hReads(3, 2, hPointAndRangeKinds) }
 // the kinds compactions leave behind (SETWITHDEL) under newer merges and deletes
 func VerifHarness_C01_ReadsCompactedKinds() { hReads(3, 2, hCompactedKinds) }
 
-func VerifHarness_C01_Reads4_Thorough() {
+func VerifHarness_C01_Reads4_Deep() {
 	hReads(4, 2, []base.InternalKeyKind{hKSet, hKDel, hKMerge, hKRDel})
 }
 
-func VerifHarness_C01_ReadsAllKinds_Thorough() { hReads(3, 3, hAllKinds) }
+func VerifHarness_C01_ReadsAllKinds_Deep() { hReads(3, 3, hAllKinds) }
 
 // the bottom level is the real levelIter over two files
 func VerifHarness_C01_ReadsLevelIter() {
